@@ -48,6 +48,12 @@ def scenarios(draw):
         handlers.append({'kind': 'delete', 'id': f'd{i}', 'optional': draw(st.sampled_from([None, None, True])), 'labels': draw(flt),
                          'script': draw(cl.outcome_scripts(delays, max_len=2)), 'errors': draw(st.sampled_from([None, 'permanent', 'ignored'])),
                          'backoff': draw(st.sampled_from([0.5, 3.0])), 'duration': draw(st.sampled_from([0, 0, 1.0]))})
+    if handlers and draw(st.integers(0, 2)) == 0:
+        # a deletion handler that does its work through sub-handlers, some of which fail for a while
+        hd = handlers[0]
+        hd['script'] = []
+        hd['subs'] = [{'id': f's{j}', 'script': draw(cl.outcome_scripts(delays, max_len=2)), 'backoff': draw(st.sampled_from([0.5, 3.0])), 'duration': 0}
+                      for j in range(draw(st.integers(1, 2)))]
     for i in range(draw(st.integers(0, 2))):
         beh = draw(st.sampled_from(['obey', 'obey', 'cancel', 'ignore', 'exit']))
         h = {'kind': 'daemon', 'id': f'm{i}', 'behaviour': beh, 'labels': draw(flt),
@@ -193,6 +199,14 @@ def check(run, res, quiesced):
                                 res.known.append({'id': FINDING_O, 'msg': msg})
                             else:
                                 res.fail('C06/F1-released-before-delete-handler', msg)
+                        else:
+                            # a deletion handler with sub-handlers has finished when they all have: one still waiting for its retry holds the object
+                            for sub in h.get('subs') or []:
+                                sid = f'{hid}/{sub["id"]}'
+                                smine = [c for c in calls if c['uid'] == uid and c['hid'] == sid and c['view']['metadata'].get('deletionTimestamp') and c['seq'] < v['seq']]
+                                if not [c for c in smine if c02._is_final(c, sub) and c.get('seq1', 1e18) < v['seq']]:
+                                    res.fail('C06/F1-released-before-sub-handler', f'{inc} released {v["name"]} at t={t} before the sub-handler {sid} of the mandatory delete '
+                                             f'handler finished (its invocations: {[(c["t0"], c["outcome"]) for c in smine]}; the parent\'s: {[(c["t0"], c["outcome"]) for c in mine]})')
                 if h['kind'] in ('daemon', 'timer'):
                     inst = [c for c in calls if c['uid'] == uid and c['hid'] == hid and c['inc'] == inc and c['seq'] < v['seq']]
                     running = [c for c in inst if c.get('seq1') is None or c['seq1'] > v['seq']]
